@@ -1,0 +1,148 @@
+//go:build verif
+
+package verifhook
+
+import (
+	"fmt"
+
+	"github.com/ipfs/go-cid"
+	cidlink "github.com/ipld/go-ipld-prime/linking/cid"
+
+	coreblock "github.com/sourcenetwork/defradb/internal/core/block"
+)
+
+// TamperBlock decodes a DAG block, applies one structural change and returns the re-encoded block
+// with its (new) cid. The signature link is kept unless the mode says otherwise. aux is the cid used
+// by the modes that insert or replace a link.
+func TamperBlock(raw []byte, mode string, aux cid.Cid) ([]byte, cid.Cid, error) {
+	b, err := coreblock.GetFromBytes(raw)
+	if err != nil {
+		return nil, cid.Undef, err
+	}
+	b = b.Clone()
+	auxLink := cidlink.Link{Cid: aux}
+	switch mode {
+	case "none":
+	case "delta-data":
+		d := append([]byte{}, b.Delta.GetData()...)
+		if len(d) == 0 {
+			d = []byte{0x01}
+		} else {
+			d[len(d)-1] ^= 0x01
+		}
+		b.Delta.SetData(d)
+	case "delta-priority":
+		b.Delta.GetDelta().SetPriority(b.Delta.GetPriority() + 1)
+	case "delta-status":
+		if b.Delta.DocCompositeDelta == nil {
+			return nil, cid.Undef, fmt.Errorf("not applicable")
+		}
+		b.Delta.DocCompositeDelta.Status ^= 1
+	case "delta-docid":
+		switch {
+		case b.Delta.DocCompositeDelta != nil:
+			b.Delta.DocCompositeDelta.DocID = append(append([]byte{}, b.Delta.DocCompositeDelta.DocID...), 'x')
+		case b.Delta.LWWDelta != nil:
+			b.Delta.LWWDelta.DocID = append(append([]byte{}, b.Delta.LWWDelta.DocID...), 'x')
+		default:
+			return nil, cid.Undef, fmt.Errorf("not applicable")
+		}
+	case "heads-drop":
+		if len(b.Heads) == 0 {
+			return nil, cid.Undef, fmt.Errorf("not applicable")
+		}
+		b.Heads = b.Heads[1:]
+	case "heads-add":
+		b.Heads = append(append([]cidlink.Link{}, b.Heads...), auxLink)
+	case "heads-replace":
+		if len(b.Heads) == 0 {
+			return nil, cid.Undef, fmt.Errorf("not applicable")
+		}
+		b.Heads = append([]cidlink.Link{auxLink}, b.Heads[1:]...)
+	case "links-drop":
+		if len(b.Links) == 0 {
+			return nil, cid.Undef, fmt.Errorf("not applicable")
+		}
+		b.Links = b.Links[1:]
+	case "links-replace":
+		if len(b.Links) == 0 {
+			return nil, cid.Undef, fmt.Errorf("not applicable")
+		}
+		l := append([]coreblock.DAGLink{}, b.Links...)
+		l[0] = coreblock.DAGLink{Name: l[0].Name, Link: auxLink}
+		b.Links = l
+	case "links-rename":
+		if len(b.Links) == 0 {
+			return nil, cid.Undef, fmt.Errorf("not applicable")
+		}
+		l := append([]coreblock.DAGLink{}, b.Links...)
+		l[0] = coreblock.DAGLink{Name: l[0].Name + "x", Link: l[0].Link}
+		b.Links = l
+	case "links-reorder":
+		if len(b.Links) < 2 {
+			return nil, cid.Undef, fmt.Errorf("not applicable")
+		}
+		l := append([]coreblock.DAGLink{}, b.Links...)
+		l[0], l[1] = l[1], l[0]
+		b.Links = l
+	case "links-add":
+		b.Links = append(append([]coreblock.DAGLink{}, b.Links...), coreblock.DAGLink{Name: "zz", Link: auxLink})
+	case "signature-link":
+		b.Signature = &auxLink
+	case "signature-removed":
+		b.Signature = nil
+	default:
+		return nil, cid.Undef, fmt.Errorf("unknown mode %s", mode)
+	}
+	out, err := b.Marshal()
+	if err != nil {
+		return nil, cid.Undef, err
+	}
+	l, err := b.GenerateLink()
+	if err != nil {
+		return nil, cid.Undef, err
+	}
+	return out, l.Cid, nil
+}
+
+// TamperSignature decodes a signature block, applies one change and returns the re-encoded block.
+// The caller files it under a cid of its choice (NewCidOf gives the content address).
+func TamperSignature(raw []byte, mode string, aux []byte) ([]byte, error) {
+	s, err := coreblock.GetSignatureBlockFromBytes(raw)
+	if err != nil {
+		return nil, err
+	}
+	switch mode {
+	case "sig-value":
+		v := append([]byte{}, s.Value...)
+		v[len(v)/2] ^= 0x01
+		s.Value = v
+	case "sig-value-other":
+		s.Value = aux
+	case "sig-identity":
+		s.Header.Identity = aux
+	case "sig-type":
+		if s.Header.Type == coreblock.SignatureTypeEd25519 {
+			s.Header.Type = coreblock.SignatureTypeECDSA256K
+		} else {
+			s.Header.Type = coreblock.SignatureTypeEd25519
+		}
+	default:
+		return nil, fmt.Errorf("unknown mode %s", mode)
+	}
+	return s.Marshal()
+}
+
+// SignatureInfo returns the fields of a signature block.
+func SignatureInfo(raw []byte) (sigType string, identity []byte, value []byte, err error) {
+	s, err := coreblock.GetSignatureBlockFromBytes(raw)
+	if err != nil {
+		return "", nil, nil, err
+	}
+	return s.Header.Type, s.Header.Identity, s.Value, nil
+}
+
+// CidOf returns the content address the block store would file the given encoded block under.
+func CidOf(raw []byte) (cid.Cid, error) {
+	return coreblock.GetLinkPrototype().Prefix.Sum(raw)
+}
